@@ -147,7 +147,7 @@ PROPS['C19']['e2e'].append(dict(profile='inval', n_quick=500, n_thorough=5000))
 PROPS['C01']['engines'] = ['e2e', 'realclock']
 PROPS['C11']['engines'] = PROPS['C11'].get('engines', ['e2e']) + ['realclock']
 PROPS['C02']['engines'] = PROPS['C02'].get('engines', ['e2e']) + ['overlap']
-for _p in ('C07', 'C09', 'C10', 'C13', 'C14', 'C15', 'C17', 'C19'):
+for _p in ('C07', 'C09', 'C10', 'C13', 'C14', 'C15', 'C16', 'C17', 'C19'):
     PROPS[_p]['engines'] = PROPS[_p].get('engines', ['e2e']) + ['scenario']
 PROPS['C01']['rule'] += ('; plus TestRealClock: responses received with a saturating Age (2^63 ns and more) and a stale-while-revalidate / max-age / request max-stale / min-fresh '
                          'combination, requested again with the real clock (between two clock readings of one RoundTrip a few nanoseconds pass, which inside the virtual-time bubble they do not)')
